@@ -46,4 +46,10 @@ Definition wf_case (c : case) : bool :=
   | Rebuild _ iv cap nu63 funding tip pend ws ds _ =>
       nz32 iv && nz32 cap && h32 nu63 && h32 funding && h32 tip && forallb h32 pend && words ws && forallb h32 ds &&
       (length ws =? length ds)%nat
+  | Plumb src iv cfg _ =>
+      in_range 0 3 src && nz32 iv &&
+      match cfg with
+      | Some (a, ca, b, cb) => nz32 a && nz32 ca && (a <=? ca) && nz32 b && nz32 cb && (b <=? cb)   (* DelayDistribution::new accepted them *)
+      | None => true
+      end
   end.
